@@ -27,15 +27,16 @@ type Parent struct {
 	Root  string // /verif
 	Seed  int64
 
-	mu        sync.Mutex
-	failures  []Failure
-	preFails  []Failure // failures produced by Pre/Post (deterministic analyses; not re-run 5x by the engine)
-	Extra     map[string]any
-	Notes     []string
-	agg       stats
-	hashFiles []string
-	notExh    bool
-	harness   []string
+	mu           sync.Mutex
+	failures     []Failure
+	preFails     []Failure // failures produced by Pre/Post (deterministic analyses; not re-run 5x by the engine)
+	Extra        map[string]any
+	Notes        []string
+	agg          stats
+	hashFiles    []string
+	notExh       bool
+	hashedStates int64
+	harness      []string
 }
 
 // AddFailure lets Pre/Post report failures found by parent-side analyses.
@@ -96,7 +97,7 @@ func Main() {
 				}
 			}
 		}
-		os.Exit(runWorker(ch, workerOpts{onlySet: set,tier: *tier, shard: *shard, nshards: *nshards, only: *only, start: *start,
+		os.Exit(runWorker(ch, workerOpts{onlySet: set, tier: *tier, shard: *shard, nshards: *nshards, only: *only, start: *start,
 			journal: *journal, hashFile: *hashfile, deadline: *deadline}))
 	}
 	root, _ := os.Getwd()
@@ -446,6 +447,7 @@ func (p *Parent) run() int {
 		}
 	}
 	hd, hn := p.mergeHashes()
+	p.hashedStates = hd
 	p.agg.Distinct += hd
 	p.agg.Nontrivial += hn
 
@@ -679,6 +681,11 @@ func (p *Parent) writeEvidence(wall time.Duration, violations int, matchedKeys, 
 		samples = append(samples, "(no worker cases; see coverage.extra)")
 	}
 	states := p.agg.Distinct
+	if p.hashedStates > 0 {
+		// checks that hash canonical states report those as "states"; cases that are distinct by construction
+		// (histories, grid pairs) are the evaluations
+		states = p.hashedStates
+	}
 	if states < 1 {
 		states = 1
 	}
@@ -701,6 +708,8 @@ func (p *Parent) writeEvidence(wall time.Duration, violations int, matchedKeys, 
 		"exhaustive":                    exh,
 		"bound_completed":               p.Check.Bound(p.Tier),
 		"cases_in_enumeration":          p.agg.Cases,
+		"distinct_cases_total":          p.agg.Distinct,
+		"distinct_states_hashed":        p.hashedStates,
 		"outcomes":                      p.agg.Outcomes,
 		"counters":                      p.agg.Extra,
 		"failing_keys":                  len(failingKeys),
